@@ -8,7 +8,7 @@ SW = ["-swap", "time=vtime", "-swap", "sync=vsync", "-swap", "github.com/hashico
 REWRITES = [("pkg/station/liveness/cached.go", SW), ("pkg/station/liveness/cache_map.go", SW), ("pkg/station/liveness/cache_lru.go", SW)]
 INJECTS = [("harness/c18/liveness_verif.go", "pkg/station/liveness/zz_verif_c18.go"),
            ("harness/c18/main/main.go", "internal/zzverif_c18/main.go")]
-CONFS = ["both-map", "live-only-map", "nonlive-only-map", "both-lru1", "both-lru2", "lru-live2-non1", "nonlive-cap-only", "live-cap-only", "nonlive-only-lru1", "live-only-lru1", "equal-lifetimes-lru1"]
+CONFS = ["both-map", "live-only-map", "nonlive-only-map", "both-lru1", "both-lru2", "lru-live2-non1", "nonlive-cap-only", "live-cap-only", "nonlive-only-lru1", "live-only-lru1", "equal-lifetimes-lru1", "zero-nonlive-map", "zero-live-lru1", "negative-nonlive-lru1"]
 CONC = ["conc:both-lru1:a+,b-|b+,a-|clear", "conc:both-lru1:a-,b-|b-,a-", "conc:both-map:a+,a-|a-,a+|clear", "conc:both-lru1:a-,sleep31m,a+|sleep31m,a-|sleep31m,clear",
         "conc:both-lru2:a-,b-,c-|c-,a-", "conc:equal-lifetimes-lru1:a+,b+|b-,a-|clear"]
 ASSUME = ["virtual clock through the vtime rewrite of cached.go/cache_map.go/cache_lru.go; lifetimes 2h (live) and 30m (non-live) approached to 1 s and crossed by 1 s",
